@@ -242,9 +242,9 @@ type Scenario struct {
 
 // Outcome of one execution.
 type Outcome struct {
-	Choices  []int   `json:"choices"`  // index among enabled goroutines at each step
+	Choices  []int   `json:"choices"` // index among enabled goroutines at each step
 	Widths   []int   `json:"-"`
-	Sched    []int   `json:"sched"`    // goroutine id per executed operation
+	Sched    []int   `json:"sched"` // goroutine id per executed operation
 	Trace    []Event `json:"trace"`
 	Terminal bool    `json:"terminal"`
 	Deadlock bool    `json:"deadlock"`
@@ -279,6 +279,13 @@ func RunOnce(mk func() Scenario, choose func(step, n int) int, prefix int, visit
 			break
 		}
 		c := choose(step, len(en))
+		if chooseIDs != nil {
+			ids := make([]int, len(en))
+			for i, g := range en {
+				ids[i] = g.id
+			}
+			c = chooseIDs(step, ids)
+		}
 		if c < 0 || c >= len(en) {
 			c = 0
 		}
@@ -314,12 +321,12 @@ type Result struct {
 	Executions int       `json:"executions"`
 	States     int       `json:"states"`
 	Steps      int       `json:"transitions"`
-	Terminals  []any     `json:"terminals"`   // distinct terminal observations
+	Terminals  []any     `json:"terminals"` // distinct terminal observations
 	Deadlocks  int       `json:"deadlocks"`
 	Stuck      int       `json:"stuck"`
 	Exhaustive bool      `json:"exhaustive"`
-	Samples    []Outcome `json:"samples"`     // complete executions kept for replay in the model
-	Bad        []Outcome `json:"bad"`         // executions whose observation failed `bad`
+	Samples    []Outcome `json:"samples"` // complete executions kept for replay in the model
+	Bad        []Outcome `json:"bad"`     // executions whose observation failed `bad`
 }
 
 // Explore enumerates all schedules depth-first with re-execution and
@@ -393,6 +400,69 @@ func Walks(mk func() Scenario, n int, rnd func(n int) int, maxSteps, keep int, b
 	seenTerm := map[string]bool{}
 	for i := 0; i < n; i++ {
 		out := RunOnce(mk, func(step, k int) int { return rnd(k) }, 0, nil, maxSteps)
+		res.Executions++
+		res.Steps += len(out.Choices)
+		if out.Stuck {
+			res.Stuck++
+		}
+		if out.Deadlock {
+			res.Deadlocks++
+		}
+		b, _ := json.Marshal(out.Obs)
+		if !seenTerm[string(b)] {
+			seenTerm[string(b)] = true
+			res.Terminals = append(res.Terminals, out.Obs)
+		}
+		if len(res.Samples) < keep && out.Terminal {
+			res.Samples = append(res.Samples, out)
+		}
+		if bad != nil && bad(out.Obs) && len(res.Bad) < 3 {
+			res.Bad = append(res.Bad, out)
+		}
+	}
+	return res
+}
+
+// chooseIDs, when set, overrides the chooser of RunOnce with one that sees the ids of the
+// enabled goroutines (used by WalksPCT).
+var chooseIDs func(step int, ids []int) int
+
+// WalksPCT runs n schedules drawn by probabilistic concurrency testing (Burckhardt et al.): every
+// goroutine gets a random priority when it is first seen, the enabled goroutine of highest
+// priority runs, and at depth-1 random steps the running goroutine's priority drops below all
+// others.  A bug that needs d ordering constraints is hit with probability >= 1/(n k^(d-1)).
+func WalksPCT(mk func() Scenario, n int, rnd func(n int) int, depth, maxSteps, keep int, bad func(obs any) bool) Result {
+	var res Result
+	seenTerm := map[string]bool{}
+	estimate := 200
+	for i := 0; i < n; i++ {
+		prio := map[int]int{}
+		low := 0
+		change := map[int]bool{}
+		for j := 0; j < depth-1; j++ {
+			change[rnd(estimate)] = true
+		}
+		chooseIDs = func(step int, ids []int) int {
+			best, bi := -1<<30, 0
+			for i, id := range ids {
+				if _, ok := prio[id]; !ok {
+					prio[id] = 1000 + rnd(1000000)
+				}
+				if prio[id] > best {
+					best, bi = prio[id], i
+				}
+			}
+			if change[step] {
+				low--
+				prio[ids[bi]] = low
+			}
+			return bi
+		}
+		out := RunOnce(mk, func(step, k int) int { return 0 }, 0, nil, maxSteps)
+		chooseIDs = nil
+		if len(out.Choices) > estimate/2 {
+			estimate = 2 * len(out.Choices)
+		}
 		res.Executions++
 		res.Steps += len(out.Choices)
 		if out.Stuck {
